@@ -176,10 +176,118 @@ unsafe fn check_canary(p: *mut u8, size: usize) {
     }
 }
 
+// ---- sampled page-fenced blocks (guard mode only), in the manner of GWP-ASan -------------------
+// One allocation in SAMPLE_EVERY (of at most SLOT_BYTES bytes) is served from a pool of slots, each
+// followed by a PROT_NONE page, and placed so that it ends at the page boundary (up to alignment).
+// A read or write behind such a block - also of a buffer the LIBRARY allocated, which the tight
+// input buffers cannot cover - faults at once; the supervisor attributes the SIGSEGV to the case.
+const SLOT_BYTES: usize = 16 << 10;
+const NSLOTS: usize = 256;
+const SAMPLE_EVERY: usize = 61;
+static POOL_BASE: AtomicUsize = AtomicUsize::new(0); // 0 = not mapped yet, usize::MAX = unavailable
+static POOL_NEXT: AtomicUsize = AtomicUsize::new(0);
+static ALLOC_COUNT: AtomicUsize = AtomicUsize::new(0);
+static SAMPLED: AtomicUsize = AtomicUsize::new(0);
+#[allow(clippy::declare_interior_mutable_const)]
+const FREE: AtomicBool = AtomicBool::new(false);
+static SLOT_BUSY: [AtomicBool; NSLOTS] = [FREE; NSLOTS];
+
+/// number of allocations served from the fenced pool so far (evidence)
+pub fn sampled_fenced_allocations() -> usize {
+    SAMPLED.load(Ordering::Relaxed)
+}
+
+#[cfg(not(miri))]
+unsafe fn pool_base() -> usize {
+    let b = POOL_BASE.load(Ordering::Acquire);
+    if b != 0 {
+        return b;
+    }
+    let total = NSLOTS * (SLOT_BYTES + PAGE);
+    let p = mmap(std::ptr::null_mut(), total, 3, 0x22, -1, 0);
+    let mut base = if p.is_null() || p as isize == -1 { usize::MAX } else { p as usize };
+    if base != usize::MAX {
+        for i in 0..NSLOTS {
+            if mprotect((base + i * (SLOT_BYTES + PAGE) + SLOT_BYTES) as *mut u8, PAGE, 0) != 0 {
+                base = usize::MAX;
+                break;
+            }
+        }
+    }
+    // another thread may have won the race; the loser's mapping is simply left unused
+    match POOL_BASE.compare_exchange(0, base, Ordering::AcqRel, Ordering::Acquire) {
+        Ok(_) => base,
+        Err(other) => other,
+    }
+}
+
+#[cfg(not(miri))]
+#[inline]
+unsafe fn pool_slot_of(p: *mut u8) -> Option<usize> {
+    let b = POOL_BASE.load(Ordering::Relaxed);
+    if b == 0 || b == usize::MAX {
+        return None;
+    }
+    let a = p as usize;
+    if a >= b && a < b + NSLOTS * (SLOT_BYTES + PAGE) {
+        Some((a - b) / (SLOT_BYTES + PAGE))
+    } else {
+        None
+    }
+}
+#[cfg(miri)]
+#[inline]
+unsafe fn pool_slot_of(_p: *mut u8) -> Option<usize> {
+    None
+}
+
+/// try to serve this request from the fenced pool
+#[inline]
+unsafe fn sampled_alloc(l: Layout, zeroed: bool) -> *mut u8 {
+    #[cfg(miri)]
+    {
+        let _ = (l, zeroed);
+        std::ptr::null_mut()
+    }
+    #[cfg(not(miri))]
+    {
+        if l.size() == 0 || l.size() > SLOT_BYTES || l.align() > 64 {
+            return std::ptr::null_mut();
+        }
+        if ALLOC_COUNT.fetch_add(1, Ordering::Relaxed) % SAMPLE_EVERY != 0 {
+            return std::ptr::null_mut();
+        }
+        let base = pool_base();
+        if base == usize::MAX {
+            return std::ptr::null_mut();
+        }
+        let start = POOL_NEXT.fetch_add(1, Ordering::Relaxed);
+        for k in 0..8 {
+            let i = (start + k) % NSLOTS;
+            if SLOT_BUSY[i].compare_exchange(false, true, Ordering::AcqRel, Ordering::Relaxed).is_ok() {
+                let end = base + i * (SLOT_BYTES + PAGE) + SLOT_BYTES;
+                let p = ((end - l.size()) & !(l.align() - 1)) as *mut u8;
+                if zeroed {
+                    std::ptr::write_bytes(p, 0, l.size());
+                } else {
+                    std::ptr::write_bytes(p, POISON.load(Ordering::Relaxed) as u8, l.size());
+                }
+                SAMPLED.fetch_add(1, Ordering::Relaxed);
+                return p;
+            }
+        }
+        std::ptr::null_mut()
+    }
+}
+
 unsafe impl GlobalAlloc for MonAlloc {
     unsafe fn alloc(&self, l: Layout) -> *mut u8 {
         note(l.size());
         if guard_on() {
+            let s = sampled_alloc(l, false);
+            if !s.is_null() {
+                return s;
+            }
             let p = System.alloc(with_tail(l));
             if !p.is_null() {
                 poison_fill(p, l.size(), POISON.load(Ordering::Relaxed) as u8);
@@ -191,6 +299,11 @@ unsafe impl GlobalAlloc for MonAlloc {
     }
     unsafe fn dealloc(&self, p: *mut u8, l: Layout) {
         if guard_on() {
+            if let Some(i) = pool_slot_of(p) {
+                std::ptr::write_bytes(p, 0x5A, l.size());
+                SLOT_BUSY[i].store(false, Ordering::Release);
+                return;
+            }
             check_canary(p, l.size());
             poison_fill(p, l.size(), 0x5A);
             return System.dealloc(p, with_tail(l));
@@ -200,6 +313,10 @@ unsafe impl GlobalAlloc for MonAlloc {
     unsafe fn alloc_zeroed(&self, l: Layout) -> *mut u8 {
         note(l.size());
         if guard_on() {
+            let s = sampled_alloc(l, true);
+            if !s.is_null() {
+                return s;
+            }
             let p = System.alloc_zeroed(with_tail(l));
             if !p.is_null() {
                 std::ptr::write_bytes(p.add(l.size()), CANARY, TAIL);
@@ -211,6 +328,16 @@ unsafe impl GlobalAlloc for MonAlloc {
     unsafe fn realloc(&self, p: *mut u8, l: Layout, new_size: usize) -> *mut u8 {
         note(new_size);
         if guard_on() {
+            if pool_slot_of(p).is_some() {
+                // move out of the pool: a fresh block (possibly sampled again), copy, release the slot
+                let nl = Layout::from_size_align_unchecked(new_size, l.align());
+                let np = self.alloc(nl);
+                if !np.is_null() {
+                    std::ptr::copy_nonoverlapping(p, np, l.size().min(new_size));
+                    self.dealloc(p, l);
+                }
+                return np;
+            }
             check_canary(p, l.size());
             let np = System.realloc(p, with_tail(l), new_size + TAIL);
             if !np.is_null() {
